@@ -21,9 +21,23 @@ static sexp the_ctx;
 static FILE *out;      /* private copy of stdout: items may close or redirect the standard ports */
 static volatile int interrupted;
 
+static long item_ms_g = 3000;
+static int out_fd = 1;
+
+/* first expiry: ask the VM to raise its interrupt error (works inside Scheme loops); second expiry: the item is */
+/* stuck in C code that cannot be interrupted - say so and leave, the runner restarts after this item            */
 static void on_alarm (int sig) {
+  struct itimerval it;
+  if (interrupted) {
+    if (write(out_fd, "T hard-timeout\n", 15) < 0) {}
+    _exit(77);
+  }
   interrupted = 1;
   if (the_ctx) sexp_context_interruptp(the_ctx) = 1;
+  memset(&it, 0, sizeof(it));
+  it.it_value.tv_sec = item_ms_g / 1000;
+  it.it_value.tv_usec = (item_ms_g % 1000) * 1000;
+  setitimer(ITIMER_REAL, &it, NULL);
 }
 
 static void arm (long ms) {
@@ -115,7 +129,9 @@ int main (int argc, char **argv) {
     else if (!strcmp(argv[i], "--probe-file")) probe = slurp(argv[i+1]);
   }
   text = slurp(argv[1]);
-  out = fdopen(dup(1), "w");
+  out_fd = dup(1);
+  out = fdopen(out_fd, "w");
+  item_ms_g = item_ms;
   signal(SIGALRM, on_alarm);
   sexp_scheme_init();
   ctx = sexp_make_eval_context(NULL, NULL, NULL, heap, maxheap);
